@@ -13,6 +13,7 @@
 
 import functools
 import itertools
+import json
 
 import jsonschema
 from oslo_log import log as logging
@@ -76,6 +77,10 @@ def extract_json(body, schema):
     """Extract JSON from a body and validate with the provided schema."""
     try:
         data = jsonutils.loads(body, parse_constant=_reject_json_constant)
+        # A string holding a lone surrogate (e.g. the escape "\\ud800") decodes
+        # but cannot be encoded again, hence neither stored nor echoed.
+        # UnicodeEncodeError is a ValueError.
+        json.dumps(data, ensure_ascii=False).encode('utf-8')
     except ValueError as exc:
         raise webob.exc.HTTPBadRequest(
             'Malformed JSON: %(error)s' % {'error': exc},
